@@ -8,6 +8,7 @@ import (
 	"fmt"
 	"regexp"
 	"sort"
+	"strings"
 	"time"
 
 	"github.com/prometheus/client_golang/prometheus"
@@ -35,8 +36,9 @@ import (
 
 var (
 	semNames    = []string{"a", "b", "job", "sev"}
-	semValues   = []string{"", "a", "ab", "abc", "b", "A", "aa", "a\nb", "é", "x.y", "xzy", "ba"}
-	semPatterns = []string{"a", "a.*", "a|b", ".*", ".+", "", "[ab]+", "a$", "^a", "(?i)a", "a.b", "é", ".", "x.y", "b|", "a{2}", "(?s)a.b", "a|"}
+	semValues   = []string{"", "a", "ab", "abc", "b", "A", "aa", "a\nb", "é", "x.y", "xzy", "ba", "\n", "a\n", "\nb", "ab\n", "a\r", "\r\n", "a\x00b", "b\na"}
+	semPatterns = []string{"a", "a.*", "a|b", ".*", ".+", "", "[ab]+", "a$", "^a", "(?i)a", "a.b", "é", ".", "x.y", "b|", "a{2}", "(?s)a.b", "a|",
+		".*b", ".*a.*", "a.+", ".+b", "ab.*", ".*ab", "a.*b", "(?s).*", "b.*", ".*a"}
 )
 
 func mkLabels(kvs []KV) model.LabelSet {
@@ -69,8 +71,74 @@ func genSemMatcher(r *vh.Rand, ls []KV) M {
 	return m
 }
 
+// a regexp of one of the shapes a fast path would special-case, on a literal, together with a label whose value puts
+// a newline (or CR / control character / nothing) at every position relative to that literal
+var shapeLits = []string{"a", "ab", "db", "prod", "x-1", "é"}
+
+func genShapePair(r *vh.Rand) (M, KV) {
+	lit := vh.Pick(r, shapeLits)
+	pat := vh.Pick(r, []string{lit, ".*", ".+", lit + ".*", ".*" + lit, ".*" + lit + ".*", lit + ".+", ".+" + lit, ".*" + lit + ".+", lit + ".*" + lit})
+	val := vh.Pick(r, []string{lit, lit + "\n", "\n" + lit, lit + "\nx", "x\n" + lit, "x" + lit + "\ny", "x\n" + lit + "y", lit + "\n" + lit, "", "\n", "\n\n",
+		lit + "\r", "\r" + lit, lit + "\x00", "x" + lit, lit + "x", "x" + lit + "x", lit + "\u2028", lit + "\r\n", "\x0b" + lit, lit + lit})
+	n := vh.Pick(r, semNames)
+	return M{T: vh.Pick(r, []int{2, 2, 3}), N: []byte(n), V: []byte(pat)}, KV{[]byte(n), []byte(val)}
+}
+
+// withShape replaces the label of the pair's name in ls and returns the matcher
+func withShape(r *vh.Rand, ls []KV) (M, []KV) {
+	m, kv := genShapePair(r)
+	var out []KV
+	for _, x := range ls {
+		if string(x.K) != string(kv.K) {
+			out = append(out, x)
+		}
+	}
+	if !r.Chance(1, 10) { // sometimes leave the label absent
+		out = append(out, kv)
+	}
+	return m, out
+}
+
+func countShape(run *vh.Run, m M, v string, present bool) {
+	if m.T < 2 {
+		return
+	}
+	shape := "other regexp"
+	p := string(m.V)
+	isLit := func(x string) bool { return x != "" && regexp.QuoteMeta(x) == x }
+	switch {
+	case p == ".*" || p == ".+":
+		shape = p
+	case isLit(p):
+		shape = "literal"
+	case strings.HasPrefix(p, ".*") && strings.HasSuffix(p, ".*") && len(p) > 4 && isLit(p[2:len(p)-2]):
+		shape = ".*lit.*"
+	case strings.HasSuffix(p, ".*") && isLit(p[:len(p)-2]):
+		shape = "lit.*"
+	case strings.HasPrefix(p, ".*") && isLit(p[2:]):
+		shape = ".*lit"
+	}
+	val := "plain value"
+	switch {
+	case !present:
+		val = "label absent"
+	case v == "":
+		val = "empty value"
+	case strings.Contains(v, "\n"):
+		val = "value with newline"
+	case strings.ContainsAny(v, "\r\x00\x0b\u2028"):
+		val = "value with CR/control/U+2028"
+	}
+	run.Count("regexp_shape_x_value", shape+" x "+val)
+}
+
 func genMatchCase(r *vh.Rand) Case {
 	c := Case{Kind: "match", LS: genLS(r)}
+	var shaped *M
+	if r.Chance(1, 2) {
+		m, ls := withShape(r, c.LS)
+		shaped, c.LS = &m, ls
+	}
 	n := vh.Pick(r, []int{0, 1, 1, 2, 3})
 	for i := 0; i < n; i++ {
 		var ms []M
@@ -80,12 +148,22 @@ func genMatchCase(r *vh.Rand) Case {
 		}
 		c.MSS = append(c.MSS, ms)
 	}
+	if shaped != nil {
+		if len(c.MSS) > 0 && r.Chance(1, 2) {
+			c.MSS[0] = append(c.MSS[0], *shaped)
+		} else {
+			c.MSS = append(c.MSS, []M{*shaped})
+		}
+	}
 	return c
 }
 
 func genSiteCase(r *vh.Rand) Case {
 	ls := genLS(r)
 	m := genSemMatcher(r, ls)
+	if r.Chance(1, 2) {
+		m, ls = withShape(r, ls)
+	}
 	return Case{Kind: "site", LS: ls, M: &m}
 }
 
@@ -162,6 +240,10 @@ func runMatch(run *vh.Run, c *Case) {
 				nontrivial = true
 			}
 			run.Count("match_op", []string{"=", "!=", "=~", "!~"}[mj.T])
+			{
+				lv, present := ls[model.LabelName(mj.N)]
+				countShape(run, mj, string(lv), present)
+			}
 			if _, ok := ls[model.LabelName(mj.N)]; !ok {
 				run.Count("match_label", "missing")
 			} else {
@@ -286,6 +368,10 @@ func runSite(run *vh.Run, c *Case) {
 	lm, _ := realMatcher(m)
 	obs, skipped := sites(m, ls)
 	want := expectHolds(m, string(ls[model.LabelName(m.N)]))
+	{
+		lv, present := ls[model.LabelName(m.N)]
+		countShape(run, m, string(lv), present)
+	}
 	var parts []string
 	for _, o := range obs {
 		parts = append(parts, vh.Pair(vh.Str(o.name), vh.Bool(o.got)))
@@ -329,6 +415,15 @@ func silSetValid(ms []M) bool {
 
 func genSilCase(r *vh.Rand) Case {
 	c := Case{Kind: "sil", LS: genLS(r)}
+	if r.Chance(1, 2) {
+		m, ls := withShape(r, c.LS)
+		c.LS = ls
+		extra := []M{m}
+		if !silSetValid(extra) {
+			extra = append(extra, M{T: 0, N: []byte("sev"), V: []byte("a")})
+		}
+		c.MSS = append(c.MSS, extra)
+	}
 	n := vh.Pick(r, []int{1, 1, 1, 2, 3})
 	for i := 0; i < n; i++ {
 		for try := 0; ; try++ {
@@ -397,6 +492,7 @@ func runSil(run *vh.Run, c *Case) {
 				extra = ", empty value"
 			}
 			run.Count("silence_public_path", "label "+state+" x "+kind+" matcher"+extra)
+			countShape(run, mj, string(v), present)
 		}
 		want = want || conj
 		msCopy := ms
